@@ -61,7 +61,7 @@ package roman
 //@ func DefaultParser
 //@   ensures [C17.input] heapSame()
 //@   ensures [C10.accept] err == nil <==> (len(input) == 0 && r&RuleDisableEmptyAsZero == 0) || (len(input) > 0 && withinLimit(len(input)) && in(pattern, input))
-//@   ensures [C10.value] err == nil && len(input) > 0 && romanValue(input) <= 18446744073709551615 ==> int(r0) == romanValue(input)
+//@   ensures [C10.value] err == nil && len(input) > 0 && romanValue(input) <= 18446744073709551615 ==> mathint(r0) == romanValue(input)
 //@   ensures [C10.value] err == nil && len(input) == 0 ==> r0 == 0
 //@   ensures [C10.zero C17.zero] err != nil ==> r0 == 0 && errAs(err, *NumberFormatError)
 //@   ensures [C18.limit] len(input) > 0 && !withinLimit(len(input)) ==> errIs(err, ErrInputTooLong) && errData(err, "inputLen") == 0
@@ -77,7 +77,8 @@ package roman
 //@   ensures [C17.input] heapSame()
 //@   ensures [C17.recv] err != nil ==> *n == old(*n)
 //@   ensures [C10.accept] err == nil <==> len(data) == 0 || (withinLimit(len(data)) && in(pattern, data))
-//@   ensures [C10.value] err == nil && len(data) > 0 && romanValue(data) <= 18446744073709551615 ==> int(*n) == romanValue(data)
+//@   ensures [C10.value] err == nil && len(data) > 0 && romanValue(data) <= 18446744073709551615 ==> mathint(*n) == romanValue(data)
+//@   ensures [C10.value] err == nil && len(data) == 0 ==> *n == 0
 //@   assigns *n
 
 // ---- the statement of C02: the canonical numeral -----------------------------------------------------------------
@@ -158,5 +159,83 @@ package roman
 //@   ensures [C02.canon] err == nil && len(r0) == numeralLen(n, DefaultFormat) && numeralAt(r0, 0, n, DefaultFormat)
 //@   ensures fresh(r0)
 
-var _ = []any{DefaultParser[string], DefaultParser[[]byte], Valid[string], Valid[[]byte], checkInputLength[string], checkInputLength[[]byte]}
+// ---- C02: the round trip, as lemmas over the contracts above --------------------------------------------------------
+// A text w that is the canonical numeral of n under flags f (numeral(w, n, f)): where the parser's valuation cuts it.
+//@ pure func numeral(w bytes, n Number, f Format) bool = len(w) == numeralLen(n, f) && numeralAt(w, 0, n, f)
+// the three digit groups stand where the alphabets cut the text: after the Ms, after the hundreds, after the tens
+//@ func lemmaC02Cuts
+//@   lemma
+//@   requires numeral(w, n, f)
+//@   ensures [C02.roundtrip] hStart(w) == th(n) && tStart(w) == th(n) + lenH(n, f) && uStart(w) == th(n) + lenH(n, f) + lenT(n, f)
+// each group is worth its digit
+//@ func lemmaC02Hundreds
+//@   lemma
+//@   requires numeral(w, n, f)
+//@   ensures [C02.roundtrip] gval(w[th(n):th(n)+lenH(n, f)], 'C', 'D', 'M') == dH(n)
+//@ func lemmaC02Tens
+//@   lemma
+//@   requires numeral(w, n, f)
+//@   ensures [C02.roundtrip] gval(w[th(n)+lenH(n, f):th(n)+lenH(n, f)+lenT(n, f)], 'X', 'L', 'C') == dT(n)
+//@ func lemmaC02Units
+//@   lemma
+//@   requires numeral(w, n, f)
+//@   ensures [C02.roundtrip] gval(w[th(n)+lenH(n, f)+lenT(n, f):len(w)], 'I', 'V', 'X') == dU(n)
+//@ func lemmaC02Value
+//@   lemma
+//@   requires numeral(w, n, f)
+//@   ensures [C02.roundtrip] romanValue(w) == 1000*th(n) + 100*dH(n) + 10*dT(n) + dU(n)
+//@   ensures [C02.roundtrip] mathint(1000*th(n) + 100*dH(n) + 10*dT(n) + dU(n)) == mathint(uint64(n))
+// and the text is a word of the parser's pattern (when it is not empty)
+//@ func lemmaC02InLanguage
+//@   lemma
+//@   requires numeral(w, n, f) && n != 0
+//@   ensures [C02.roundtrip] in(pattern, w)
+// so parsing and validating what the formatter wrote gives the number back
+//@ func lemmaC02RoundTrip
+//@   lemma
+//@   requires withinLimit(numeralLen(n, f))
+//@   ensures [C02.roundtrip] err == nil && got == n && verr == nil
+//@ func lemmaC02Methods
+//@   lemma
+//@   requires withinLimit(numeralLen(n, DefaultFormat))
+//@   ensures [C02.roundtrip] err == nil && got == n
 
+func lemmaC02Cuts(w []byte, n Number, f Format) {}
+
+func lemmaC02Hundreds(w []byte, n Number, f Format) {}
+func lemmaC02Tens(w []byte, n Number, f Format)     {}
+func lemmaC02Units(w []byte, n Number, f Format)    {}
+
+func lemmaC02Value(w []byte, n Number, f Format) {
+	lemmaC02Cuts(w, n, f)
+	lemmaC02Hundreds(w, n, f)
+	lemmaC02Tens(w, n, f)
+	lemmaC02Units(w, n, f)
+}
+
+func lemmaC02InLanguage(w []byte, n Number, f Format) {
+	lemmaC02Cuts(w, n, f)
+}
+
+func lemmaC02RoundTrip(n Number, f Format) (got Number, err error, verr error) {
+	b, _ := DefaultFormatter(nil, n, f)
+	lemmaC02Value(b, n, f)
+	if n != 0 {
+		lemmaC02InLanguage(b, n, f)
+	}
+	got, err = DefaultParser(b, 0)
+	verr = Valid(b, 0)
+	return got, err, verr
+}
+
+func lemmaC02Methods(n Number) (got Number, err error) {
+	b, _ := n.MarshalText()
+	lemmaC02Value(b, n, DefaultFormat)
+	if n != 0 {
+		lemmaC02InLanguage(b, n, DefaultFormat)
+	}
+	err = got.UnmarshalText(b)
+	return got, err
+}
+
+var _ = []any{DefaultParser[string], DefaultParser[[]byte], Valid[string], Valid[[]byte], checkInputLength[string], checkInputLength[[]byte]}
